@@ -86,6 +86,20 @@ def fam_bounds(tier):
     env.maxlen = 5 if tier == 'quick' else 6
     env.family = 'bounds'
     envs.append(env)
+    # skip nodes WITH a stack effect (used directly; the generator's skip never has one): a unit whose element fails must give back the
+    # skip's pushes / drops as well as its position
+    for sname, sk in (('push', push(S(' '))), ('drop', seq('off', S(' '), 'drop'))):
+        shapes = []
+        for mn, mx in ((0, None), (1, None), (2, None), (0, 2), (1, 3), (2, 2)):
+            shapes.append(('node', True, seq('off', rep('on', mn, mx, S('x')), opt('peekall'), opt(S('y')))))
+        shapes.append(('node', True, seq('off', push(S('y')), push(S('x')), rep('on', 0, 4, S('x')), S(' '), S('y'), 'peek')))
+        shapes.append(('node', True, seq('on', S('x'), S('x'), opt('popall'), opt(S('y')))))
+        env = Env('bd_sk%s' % sname, skip=sk, rules=[], shapes=shapes)
+        env.alpha = [b'x', b'y', b' ']
+        env.maxlen = 5 if tier == 'quick' else 6
+        env.extra = [b'yxx yx', b'yxx yy', b'x x  y ', b'x  x y']
+        env.family = 'bounds'
+        envs.append(env)
     return envs
 
 
@@ -156,6 +170,22 @@ def fam_stack(tier):
         env.prefix = b'ab'      # every shape starts with PUSH("a") PUSH("b")
         env.family = 'stack'
         envs.append(env)
+    # predicates nested in predicates where the OUTER one starts on a non-empty stack, its operand empties the stack and the INNER one
+    # then runs on the empty stack (snapshot / restore pairing when a snapshot is taken of an empty stack)
+    nest = []
+    for emptier in ('drop', 'pop', 'popall'):
+        for inner in (pos(S('a')), neg('any'), neg(S('b'))):
+            for inside in ('peek', 'empty'):
+                for outer in (pos, neg):
+                    for outside in ('pop', 'peekall'):
+                        nest.append(('node', True, seq('off', push(S('a')), outer(seq('off', emptier, inner, inside)), outside)))
+    nest.append(('node', True, seq('off', push(S('a')), push(S('b')), neg(seq('off', 'popall', neg(S('c')))), 'peek', ('slice', 0, 1))))
+    env = Env('st_nest', skip=None, rules=[], shapes=nest)
+    env.alpha = [b'a', b'b', b'c']
+    env.maxlen = 4 if tier == 'quick' else 5
+    env.extra = [b'abbac', b'abbab', b'aaaaa']
+    env.family = 'stack'
+    envs.append(env)
     return envs
 
 
@@ -220,6 +250,7 @@ def fam_misc(tier):
         ('lst', 'inh', 'both', seq('inh', 'soi', star('inh', rule('n')), rule('EOI')), False),
         ('bnd', 'inh', 'both', seq('inh', rep('inh', 1, 3, rule('n')), opt(S('c'))), False),     # counted repetition of rules: skipped tokens in between
         ('bx', 'inh', 'both', rep('inh', 2, 2, rule('s')), False),
+        ('ar', 'inh', 'both', seq('inh', ('arr', 2, rule('s')), opt(('arr', 3, rule('n')))), False),   # [T; N] of token-bearing nodes
     ]
     shapes = [('rule', r[0]) for r in rules] + [('rule', 'EOI')]
     env = Env('mi_rules', skip=choice(rule('ws', 'off'), rule('cm', 'off')), rules=rules, shapes=shapes)
